@@ -287,7 +287,7 @@ def write_evidence(pid, tier, seed, level, coverage, assumptions, wall, violatio
 def write_replay(pid, n, payload):
     d = os.path.join(EVID, "replays")
     os.makedirs(d, exist_ok=True)
-    p = os.path.join(d, "%s-%d.json" % (pid, n))
+    p = os.path.join(d, "%s-%s.json" % (pid, n))
     with open(p, "w") as f:
         json.dump(payload, f, indent=1, sort_keys=True)
     return p
